@@ -41,10 +41,14 @@ def check(run, F, tier):
             t = b["term"]
             if t["k"] == "call" and "fn" in t["func"].get("const", {}):
                 names.append(t["func"]["const"]["fn"]["name"])
-    if gs and names == ["values", "cloned", "collect"]:
+    # every stored value, in map order, unfiltered: the body reads the map through `values()` (or `iter()`), never filters /
+    # skips / takes / reverses, and clones what it yields (iterator chain or explicit loop)
+    ALLOWED = {"values", "iter", "cloned", "collect", "map", "clone", "len", "with_capacity", "into_iter", "next", "push", "new", "to_vec", "extend", "copied"}
+    FORBID = {"filter", "filter_map", "skip", "take", "rev", "step_by", "skip_while", "take_while", "retain", "sort", "dedup", "truncate", "pop", "remove", "swap_remove"}
+    if gs and ("values" in names or "iter" in names) and ("cloned" in names or "clone" in names) and not (set(names) & FORBID) and set(names) <= ALLOWED:
         r1.ok("GenericStore::get_stored", names)
     else:
-        r1.violation("GenericStore::get_stored", "GenericStore::get_stored is not map.values().cloned().collect(): %s" % names)
+        r1.violation("GenericStore::get_stored", "GenericStore::get_stored does not return every stored value in map order (values().cloned().collect() or an equivalent loop): %s" % names)
     f = ms["get_qos2_publish_handled"]
     res = conn.paths(F, f["path"])
     rets = [p.ret for p in res["paths"] if p.kind == "return"]
